@@ -39,3 +39,19 @@ Fixpoint batches (cur : list Value) (ops : list HOp) : list (list Value) :=
 
 Definition one_shot (b0 : Builder) (recs : list Value) : Outcome Arr :=
   do b <- fold_left (fun acc r => do b <- acc ;; push r b) recs (Ok b0) ;; Ok (into_array b).
+
+(* histories in which operations may FAIL: a rejected push returns an error and the caller carries on with the same builder.
+   `accepted` keeps the operations that succeed; `run_lenient` is what the builds of the whole history return. *)
+Fixpoint run_lenient (b : Builder) (ops : list HOp) : list Arr :=
+  match ops with
+  | [] => []
+  | HPush v :: r => match push v b with Ok b' => run_lenient b' r | _ => run_lenient b r end
+  | HBuild :: r => into_array b :: run_lenient (reset b) r
+  end.
+
+Fixpoint accepted (b : Builder) (ops : list HOp) : list HOp :=
+  match ops with
+  | [] => []
+  | HPush v :: r => match push v b with Ok b' => HPush v :: accepted b' r | _ => accepted b r end
+  | HBuild :: r => HBuild :: accepted (reset b) r
+  end.
